@@ -227,6 +227,27 @@ CHECKS["C03"] = dict(
     technique="symbolic execution of clang's LLVM IR of the generated C++ typed codec (own interpreter) + SMT validity vs. canonical bytes",
 )
 
+CHECKS["C18"] = dict(
+    engine="llsym",
+    category="model_checking",
+    text="For every schema of a family (1..4 CAN bindings named after their struct, ids 0..2047, bus names of 1..4 "
+         "characters incl. names that prefix one another, same id on several buses, same bus with several ids; bus-less and "
+         "non-CAN bindings present) the real fcp_cpp generator's can_static_schema.h/can.h/fcp.h are compiled with a harness TU "
+         "(clang++ -O1 to IR) and llsym interprets CanStaticSchema::Encode/Decode with everything they reach "
+         "(GetMsgName/GetSid/GetBus tables, StaticSchema::EncodeJson/DecodeJson name dispatch, <S>::Encode/Decode, Buffer, "
+         "libstdc++ string/optional/vector code). Obligations: Encode(name, v) for every in-range v gives (bus tag, id, dlc, data) == "
+         "(binding's bus NUL-padded, binding's id, canonical size, canonical bytes) with no byte read from uninitialised "
+         "memory; Decode of that frame gives the binding's name and v; Decode of a fully symbolic frame (sid, 4 bus bytes, "
+         "dlc, 8 data bytes) that matches no binding is reported as unknown.",
+    design_ref="DESIGN.md §4 C18",
+    note="Environment models (part of the claim): <S>::FromJson(json) returns the typed value built from a symbolic "
+         "argument area, <S>::DecodeJson() dumps the typed value and returns json null - JSON itself is never executed. "
+         "Outside the claim: CanDynamicSchema (the reflection-loaded side, DESIGN.md §6a) and hence the 'static and dynamic give the "
+         "same answers' clause; bindings without a bus; 'as'-renamed bindings; payloads above 8 bytes; frame.data beyond dlc. "
+         "Counterexamples are replayed through fcp::can::Can with real nlohmann::json, compiled with clang++ and g++.",
+    technique="symbolic execution of clang's LLVM IR of the generated C++ CAN wrapper (own interpreter, JSON conversions modelled) + SMT validity",
+)
+
 NOT_APPLICABLE = {
     "C07": "Subject is the Lark Earley parser with a dynamic regex lexer over all texts: it cannot be executed "
            "symbolically by CrossHair or by the proxy engine within reach (DESIGN.md §6); grammar-based generation would "
@@ -237,8 +258,6 @@ NOT_APPLICABLE = {
            "go through nlohmann::json's variant machinery, std::map (out-of-line red-black tree) and ~15 libstdc++/libc "
            "functions (string internals, strtol, vsnprintf, log2) that need validated native models in the IR interpreter; "
            "that surface is not encoded (DESIGN.md §6a). Not replaced by a concrete differential test.",
-    "C18": "Same boundary as C13 (fcp::can::Can over ICanSchema with nlohmann::json payloads and std::map lookups); the "
-           "static/dynamic CAN schemas are not reachable by the IR interpreter without the native-model surface of DESIGN.md §6a.",
     "C17": "Quantifies over interpreter state (PYTHONHASHSEED, process history), not over data the code computes on; "
            "there is no symbolic input to hand to a solver (DESIGN.md §6).",
 }
